@@ -225,12 +225,15 @@ def satisfiesBounds : Space α → St α → Bool
   | .wrap s, a => satisfiesBounds s a
   | _, _ => false
 
-/-- the claims a space makes (`isMetricSpace`, `hasSymmetricDistance`), as the code computes them:
-every shipped leaf and special space inherits `true`; compounds take the conjunction (isMetricSpace)
-resp. the base-class `true` (hasSymmetricDistance). -/
+/-- `isMetricSpace()` as the code computes it: the shipped leaf spaces inherit `true`, Möbius and Klein
+bottle override it to `false` (their distances violate the triangle inequality: `mobius_triangle_fails`,
+`klein_triangle_fails`), compounds take the conjunction, wrappers forward.  (`hasSymmetricDistance()` is the
+base-class `true` for every modelled space.) -/
 def claimsMetric : Space α → Bool
   | .ccons _ h t => claimsMetric h && claimsMetric t
   | .wrap s => claimsMetric s
+  | .mobius _ _ => false
+  | .klein => false
   | _ => true
 
 end OmplModel.SpaceDist
